@@ -350,7 +350,7 @@ pub fn generate(profile: &str, seed: u64, index: u64) -> ProbeScenario {
     // arena near the image (short trampoline form) or far from it (long form)
     let near = rng.chance(1, 2);
     let arena = if near { 0x5555_4000_0000 + rng.below(0x1000) * 0x1000 } else { *rng.pick(&[0x1000_0000_0000u64, 0x10000, 0x7000_0000_0000, 0x2_0000_0000]) + rng.below(0x100) * 0x1000 };
-    let off = *rng.pick(&[0u64, 1, 0x7f3, 0xff0, 0xffc, 0xffe]);
+    let off = *rng.pick(&[0u64, 1, 0x7f3, 0xff0, 0xff9, 0xffb, 0xffc, 0xffe]);
     let prologue = rng.below(crate::arena::PROLOGUES.len() as u64) as usize;
     if mode != "gate" && mode != "shapes" {
         classes.push(if near { "target-near-image".into() } else { "target-far-from-image".into() });
